@@ -134,8 +134,10 @@ FactorColumn(p, t) ==
                     [i \in DOMAIN t.rows |-> [x \in all |->
                         IF x \in Cols(t) THEN t.rows[i][x]
                         ELSE IF t.rows[i][c] = vals[IndexOf(names, x)] THEN "1" ELSE "0"]]),
-                 \* whether n/a counts as "a unique value" is not said
-                 ~Has(p, "factor_values") /\ NA \in Range(cv))
+                 \* whether n/a counts as "a unique value" is not said; nor is the default name of a factor column
+                 \* when factor_values are given without factor_names
+                 \/ (~Has(p, "factor_values") /\ NA \in Range(cv))
+                 \/ (Has(p, "factor_values") /\ ~Has(p, "factor_names")))
 
 (* remap_columns: "Map values in m columns ... into a new combinations in n columns."
    map_list rows = m key values followed by n mapped values.  Rows whose key is not in the map get n/a;
